@@ -48,8 +48,7 @@ namespace occa {
     if (!modeMemoryPool) {
       return;
     }
-    modeMemoryPool->removeMemoryPoolRef(this);
-    if (modeMemoryPool->modeMemoryPool_t::needsFree()) {
+    if (modeMemoryPool->removeMemoryPoolRef(this)) {
       delete modeMemoryPool;
       modeMemoryPool = NULL;
     }
